@@ -122,7 +122,8 @@ func hasToken(d map[string]string, token string) bool {
 
 func getDurationDirective(d map[string]string, token string) (dur time.Duration, valid bool) {
 	if v, ok := d[token]; ok {
-		return RawDeltaSeconds(v).Value()
+		// The argument may be given as token or quoted-string (RFC 9111 §5.2).
+		return RawDeltaSeconds(ParseQuotedString(v)).Value()
 	}
 	return
 }
@@ -151,7 +152,7 @@ func (d CCRequestDirectives) MaxAge() (dur time.Duration, valid bool) {
 // MaxStale parses the "max-stale" request directive as defined in RFC 9111, §5.2.1.2.
 func (d CCRequestDirectives) MaxStale() (dur RawDeltaSeconds, valid bool) {
 	if v, ok := d["max-stale"]; ok {
-		return RawDeltaSeconds(v), true
+		return RawDeltaSeconds(ParseQuotedString(v)), true
 	}
 	return
 }
